@@ -306,4 +306,23 @@ PROPS = {
                          "attribution of deviations to known findings is computed by the model (Driver/TypedCase.lean)"],
         "assumptions": ["same time zone for both passes (the property's premise)", "string([]byte) is not self-readable (corrected table, DESIGN.md §13)"],
     },
+    "C19": {
+        "kind": "c19",
+        "jl": True,
+        "module": "Props.C19",
+        "namespace": "Jl.C19",
+        "rule": ("the jl binary built from the working tree, run in scratch directories (TZ=UTC): 120 (thorough: 3000) random column lists "
+                 "(1-4 columns, names incl. non-ASCII and spaces, sub-rows to depth 2; input and output descriptors drawn from: absent, "
+                 "every format, format(type) for all 19 type names, unknown names, wrong case, and the regexp's edge cases 'string()', "
+                 "'string(int', '(int)', 'numeric(int)x', 'a)b', 'string(a(b)', embedded spaces) rendered as row.yml and as an inline -t "
+                 "template, with 1-5 input lines (valid, rejected by the template, invalid JSON, blank): (a) row.yml only, (b) -t only, "
+                 "(c) -t with a different row.yml present, (d) the library streamer in-process with independently constructed templates; "
+                 "stdout bytes, exit status and the number of logged line errors must coincide and match the model. Malformed templates "
+                 "(6 inline, 5 YAML) must exit non-zero with empty stdout; '-t {}' and '-t \'\'' keep the file definition. distinct = "
+                 "distinct (definitions, stdin)"),
+        "trusted_base": [KERNEL, EXTRACT, CORR, "lean/Model/Jl.lean (hand-written from definition.go/root.go; the registries are regenerated from the source)",
+                         "yaml.v3, cobra, viper, zerolog and the process boundary: executed, not modelled"],
+        "assumptions": ["common domain of the two languages: descriptors without ':', declared sub-rows with at least one column, unique names",
+                        "unknown format or type names are accepted by design (auto / none)"],
+    },
 }
